@@ -177,6 +177,32 @@ def _make_unique(em, rd, call, args, obj):
     if len(args) == 1 and '[]' in (qt(call) or ''):
         # array form make_unique<T[]>(n) only; make_unique<T>(x) (one constructor argument) is not modelled
         return '((%s)vstd_new((unsigned long)(%s), sizeof(%s)))' % (em.cdecl(t), em.E(args[0]), elem)
+    if len(args) == 1 and '[]' not in (qt(call) or ''):
+        # make_unique<T>(x) for an extracted class T with exactly one instantiated one-parameter constructor taking x's type:
+        # a fresh heap object constructed by that (real, extracted) constructor
+        from .models import norm_name
+        m = T.parse(qt(call))
+        tname = em._split_targs(T.type_str(T.strip_quals(m)))[0] if 'unique_ptr<' in T.type_str(T.strip_quals(m)) else None
+        rec = em.tu.find_record(tname) if tname else None
+        if rec is None:
+            return None
+        want = norm_name(T.type_str(T.strip_quals(T.strip_ref(T.parse(qt(args[0]))))))
+        cands = []
+        for fid, fn in em.tu.funcs.items():
+            if fn['kind'] == 'CXXConstructorDecl' and em.tu.parent_rec.get(fid, {}).get('id') == rec['id']:
+                ps = em.params(fn)
+                if len(ps) == 1:
+                    try:
+                        if norm_name(T.type_str(T.strip_quals(T.strip_ref(T.parse(qt(ps[0])))))) == want:
+                            cands.append(fn)
+                    except T.TypeParseError:
+                        pass
+        if len({f['id'] for f in cands}) != 1:
+            raise ExtractError('make_unique<%s>(x): no unique one-parameter constructor for the argument type' % tname)
+        ctor = cands[0]
+        cname = em.need(ctor)
+        em.lowerings['M-mem(std::make_unique<T>(x): fresh object built by the real constructor)'] += 1
+        return '({ %s = (%s)vstd_new(1UL, sizeof(%s)); *__mu = %s(%s); __mu; })' % (em.cdecl(t, '__mu'), em.cdecl(t), elem, cname, em.arg(args[0], qt(em.params(ctor)[0])))
     return None
 
 
